@@ -1,3 +1,6 @@
 pub mod c02;
 pub mod c06;
+pub mod c07;
+pub mod c08;
 pub mod c09;
+pub mod c10;
